@@ -14,19 +14,40 @@ PROBE_TARGET = os.path.join(common.CACHE, "probe-target")
 _CACHE = {}
 
 
-def run_probe(prop, obligation, scratch):
+def probe_for_unit(unit_name):
+    """Name of the probe file registered as bounded stand-in for a Verus unit (or None)."""
+    if not os.path.isdir(PROBE_DIR):
+        return None
+    for fn in sorted(os.listdir(PROBE_DIR)):
+        if fn.endswith(".rs"):
+            text = open(os.path.join(PROBE_DIR, fn)).read()
+            m = re.search(r"//@PROBE .*units=(\S+)", text)
+            if m and unit_name in m.group(1).split(","):
+                return fn
+    return None
+
+
+def probe_bound(fn):
+    text = open(os.path.join(PROBE_DIR, fn)).read()
+    m = re.search(r"//@BOUND (.*)", text)
+    return m.group(1).strip() if m else "see probe source"
+
+
+def run_probe(prop, obligation, scratch, only_file=None):
     """-> (found: True/False/None, output)"""
     if not os.path.isdir(PROBE_DIR):
         return None, ""
     for fn in sorted(os.listdir(PROBE_DIR)):
         if not fn.endswith(".rs"):
             continue
+        if only_file and fn != only_file:
+            continue
         text = open(os.path.join(PROBE_DIR, fn)).read()
         m = re.search(r"//@PROBE file=(\S+) test=(\S+) clauses=(\S+)", text)
         if not m:
             continue
         rel, test, pat = m.groups()
-        if not re.search(pat, obligation):
+        if not only_file and not re.search(pat, obligation):
             continue
         if (scratch.dir, fn) in _CACHE:
             return _CACHE[(scratch.dir, fn)]
